@@ -61,4 +61,18 @@ PROPS = {
         "assumptions": ["'asks for exactly P' means same address bytes and same length as the client was told", "a length-only hint (::/L, L > 0) is not a hint-less request; nothing beyond C08 validity is asserted for it",
                         "the retransmission clause is applied only to messages all of whose IA_PDs are hint-less or exact hints on held prefixes"],
     },
+    "C02": {
+        "engine": "lease4",
+        "tests": [{"name": "TestC02", "quick": {"checks": 500, "shards": 3}, "thorough": {"checks": 500, "shards": 32, "timeout": 3000}}],
+        "rule": "rapid draws a range of 2..200 addresses (word-boundary sizes 63/64/65/127/128/129, placed anywhere incl. 0.0.0.0 and ending at 255.255.255.255), a lease duration, 1..N+3 clients with hardware addresses of 0..16 bytes (decimal-looking bytes because the column has NUMERIC affinity) and a history of 0..16 [thorough ..40] DISCOVER/REQUEST/RESTART steps with hostile hostnames, optionally followed by a concurrent phase (4..12 goroutines, same-client storms); requests are wire-built, the stub is built as HandleMsg4 builds it, the handler comes from Plugin.Setup4 on a real sqlite file. Oracle: reference lease table (client -> address, address -> client): in range, lease-time option, stickiness, uniqueness, refusal iff unknown client and range full. Non-trivial: a repeat of some client AND (a restart, exhaustion or a concurrent phase). Distinct: FNV-64 of the case JSON.",
+        "assumptions": ["restarts reuse the same range and lease arguments", "which free address a new client gets is not asserted",
+                        "each Setup4 leaks one sqlite handle by design of the plugin, so cases per process are bounded (skipped as 'fd-limit' beyond the budget)"],
+    },
+    "C03": {
+        "engine": "lease4",
+        "tests": [{"name": "TestC03", "quick": {"checks": 300, "shards": 3}, "thorough": {"checks": 400, "shards": 32, "timeout": 3000}}],
+        "rule": "C02's histories with hardware-address lengths uniform in 0..16 and hostnames biased to numeric-looking/NUL/invalid UTF-8/255-byte values; after EVERY step the sqlite file (and journal files if present) is copied and (1) read directly by the harness with database/sql and its own parser of the mac column, (2) reopened with a fresh Setup4, (3) probed with one DISCOVER per known client and one new client. Oracle: rows == model exactly (none lost, changed, extra, duplicated), restart succeeds, every client gets its address back, stored expiry >= floor(t_before_call + lease) - 1. Non-trivial: a crash point with a binding whose chaddr length is not 6, or a numeric-looking hostname. Distinct: FNV-64 of the case JSON.",
+        "assumptions": ["crash points are the quiescent points between datagrams (file copied while no request is in flight); torn sqlite pages are not injected",
+                        "the database lives on tmpfs when /dev/shm exists (fsync is a no-op there)"],
+    },
 }
